@@ -52,32 +52,16 @@ Theorem C09_custom_renderable : forall s r methods m, handled s r methods ->
   r_outcome r = Raise_ (ERenderable (TMReturn (VMsg m))) -> final_message (Some s) r = Some m.
 Proof. exact custom_renderable. Qed.
 Print Assumptions C09_custom_renderable.
-(* any other exception, a non-message return value, an error renderer that raises or returns None: a bare 5.00
+(* any other exception, a non-message return value, an error renderer that raises or returns anything but a Message: a bare 5.00
    (empty payload — nothing of the exception or the value can appear in it) *)
 Theorem C09_bare_500 : forall s r methods, handled s r methods -> yields_bare_500 (r_outcome r) ->
   final_message (Some s) r = Some bare_500.
 Proof. exact bare_500_table. Qed.
 Print Assumptions C09_bare_500.
-(* the table is total for resources built on resource.Resource, with one exception (next theorem) *)
-Theorem C09_final_message_total : forall srv r, not_raw srv r ->
-  (exists m, final_message srv r = Some m) \/
-  (final_message srv r = None /\ reaches_handler srv r = true /\ renderer_garbage (r_outcome r)).
+(* the table is total for resources built on resource.Resource *)
+Theorem C09_final_message_total : forall srv r, not_raw srv r -> exists m, final_message srv r = Some m.
 Proof. exact final_message_total. Qed.
 Print Assumptions C09_final_message_total.
-
-(* FINDING (open, known_findings.d/C09.json): the full statement "a failing error renderer produces a bare 5.00" is
-   refuted by the faithful model for renderers returning a non-Message other than None: the request is never
-   answered and stays registered.  Witness replayed on the implementation by corpus/C09/finding_renderer_garbage.json *)
-Definition garbage_request : request :=
-  {| r_id := 0; r_remote := 0; r_token := [1]; r_mid := 7; r_con := true; r_code := GET; r_path := [1]; r_nr := None;
-     r_slow := false; r_outcome := Raise_ (ERenderable (TMReturn VOther)) |}.
-Definition one_resource_site : option site := Some [([1], Plain [GET; POST; PUT; DELETE; FETCH; PATCH; iPATCH])].
-Theorem C09_failing_renderer_gives_500_refuted :
-  not_raw one_resource_site garbage_request /\ final_message one_resource_site garbage_request = None /\
-  run_script one_resource_site 100 [Req garbage_request; Tick 100000; Done 0; AckFrom 0]
-  = ([([], [], 1); ([empty_ack 0 7], [], 0); ([], [], 0); ([], [], 0)], (1, 0, 0, 0)).
-Proof. split; [cbn; discriminate|]. split; vm_compute; reflexivity. Qed.
-Print Assumptions C09_failing_renderer_gives_500_refuted.
 
 (* ================================================================ 2. the once-only final event of the request's pipes *)
 (* for every interleaving of what the rendering coroutine does (add_response with final / non-final / non-message
@@ -96,13 +80,10 @@ Print Assumptions C09_pipe_two_states.
 Theorem C09_pipe_model_closed : forall l, ~ In (Log LogUnmodelled) (snd (prun live l)).
 Proof. exact pipe_model_closed. Qed.
 Print Assumptions C09_pipe_model_closed.
-(* the rendering of a request on a resource.Resource puts exactly its final message on the pipes, once, and ends them;
-   when there is none (finding above) the pipes stay set up and the task dies *)
+(* the rendering of a request on a resource.Resource puts exactly its final message on the pipes, once, and ends them *)
 Theorem C09_coroutine_final_once : forall srv r, not_raw srv r ->
-  match final_message srv r with
-  | Some m => exists logs n, run_ractions live (respond srv r) = (ended, map Log logs ++ [Send m true], n)
-  | None => exists logs, run_ractions live (respond srv r) = (live, map Log logs, 1)
-  end.
+  exists m logs n, final_message srv r = Some m /\
+                   run_ractions live (respond srv r) = (ended, map Log logs ++ [Send m true], n).
 Proof. exact coroutine_final_once. Qed.
 Print Assumptions C09_coroutine_final_once.
 
@@ -154,7 +135,34 @@ Theorem C09_send_message_cases : forall s r m,
 Proof. exact send_message_cases. Qed.
 Print Assumptions C09_send_message_cases.
 
+(* every response — from a handler, an error renderer, or built from an exception — reaches the message layer with the
+   request's No-Response option filled in if it had none, so suppression applies to all of them alike *)
+Theorem C09_no_response_filled_in : forall s r m last,
+  perform s r [Send m last] = let '(s', w) := send_message s r (tm_fill r m) in (s', w ++ [], []).
+Proof. exact perform_send. Qed.
+Print Assumptions C09_no_response_filled_in.
+Theorem C09_tm_fill_spec : forall r m,
+  m_code (tm_fill r m) = m_code m /\ m_payload (tm_fill r m) = m_payload m /\ m_cf (tm_fill r m) = m_cf m /\
+  m_nr (tm_fill r m) = match m_nr m with Some n => Some n | None => r_nr r end.
+Proof. exact tm_fill_spec. Qed.
+Print Assumptions C09_tm_fill_spec.
+
 (* ================================================================ non-vacuity *)
+(* the former finding (fixed in /repo by abf5426): an error renderer returning a str is answered by a bare 5.00 *)
+Definition garbage_request : request :=
+  {| r_id := 0; r_remote := 0; r_token := [1]; r_mid := 7; r_con := true; r_code := GET; r_path := [1]; r_nr := None;
+     r_slow := false; r_outcome := Raise_ (ERenderable (TMReturn VOther)) |}.
+Example C09_failing_renderer_example :
+  run_script (Some [([1], Plain [GET; POST; PUT; DELETE; FETCH; PATCH; iPATCH])]) 100 [Req garbage_request; Tick 100000]
+  = ([([mk_wire garbage_request T_ACK 7 bare_500], [LogRenderFailed], 0); ([], [], 0)], (0, 0, 0, 0)).
+Proof. vm_compute. reflexivity. Qed.
+(* an unknown path asked with No-Response 8 (suppress 4.xx): only the empty ACK goes out *)
+Example C09_no_response_error_example :
+  run_script (Some [([1], Plain [GET])]) 100
+    [Req {| r_id := 0; r_remote := 0; r_token := [1]; r_mid := 7; r_con := true; r_code := GET; r_path := [9]; r_nr := Some 8;
+            r_slow := false; r_outcome := Return VNone |}]
+  = ([([empty_ack 0 7], [], 0)], (0, 0, 0, 0)).
+Proof. vm_compute. reflexivity. Qed.
 Definition ex_site : site := [([1], Plain [GET; POST; PUT; DELETE; FETCH; PATCH; iPATCH]); ([2], Plain [GET])].
 Definition ex_req (id tok : Z) (o : outcome) : request :=
   {| r_id := id; r_remote := 0; r_token := [tok]; r_mid := 100 + id; r_con := true; r_code := GET; r_path := [1];
